@@ -40,8 +40,8 @@ func crossNames(t *rapid.T, d *Decl) {
 		for i := 0; i < n; i++ {
 			a := opts[rapid.IntRange(0, len(opts)-1).Draw(t, "crossA")]
 			b := opts[rapid.IntRange(0, len(opts)-1).Draw(t, "crossB")]
-			if a == b {
-				continue
+			if a == b || a.ViaAdd || b.ViaAdd {
+				continue // (ini-name is a tag; options added in code have neither tag nor field name)
 			}
 			switch rapid.IntRange(0, 4).Draw(t, "crossKind") {
 			case 0:
@@ -90,7 +90,7 @@ func genC13(t *rapid.T) *C13Case {
 	d.EachCmd(func(c *Cmd, _ []*Cmd) {
 		c.G.EachGroup(func(g *Group, _ []*Group) {
 			for i := range g.Options {
-				if rapid.IntRange(0, 5).Draw(t, "hasIniName") == 0 {
+				if rapid.IntRange(0, 5).Draw(t, "hasIniName") == 0 && !g.Options[i].ViaAdd {
 					g.Options[i].IniName = rapid.SampledFrom([]string{"ini-key", "Key", "the.key", "k", "Verbose", "é"}).Draw(t, "iniName") + fmt.Sprint(i)
 				}
 			}
@@ -233,7 +233,7 @@ func c13Oracle(c *C13Case) string {
 			continue
 		}
 		counts[o.ID]++
-		canon := o.Field
+		canon := iniKeyOf(o)
 		if o.IniName != "" {
 			canon = o.IniName
 		}
